@@ -23,10 +23,16 @@ exactly the registered connected servers whenever the layout has an entry for th
 registered nowhere as a normal volume and the answer is the EC shard map — the two open EC-lookup
 findings live exactly there), `refresh_removes_full` (the size-limit conjunct holds right after a refresh
 round; between rounds it is false of the code: `full_volume_offered_again`, open finding
-ensureCorrectWritables/full-volume-offered-again).
+ensureCorrectWritables/full-volume-offered-again), `size_limit_run_partial` (the size-limit conjunct as an
+invariant — no volume that a refresh round saw full and that stayed full is offered — under the hypothesis
+`NoReoffer` that excludes exactly that finding), `lookup_exact_all_partial` (`EcInv`: the EC shard map lists
+exactly the connected servers holding each shard, hence Topology.Lookup is exact for EC volumes too, under
+the hypothesis that no server disconnects while it has EC shards registered = the open finding
+UnRegisterDataNode/ec-shards-of-disconnected-server-stay-in-lookup; witness `ec_stays_after_disconnect`).
 -/
 import SwV.Model.C11
 import SwV.Spec.C11
+import SwV.Lemmas.C11Ec
 namespace SwV.Props.C11
 open SwV.Model.C11 SwV.Spec.C11
 
@@ -2164,5 +2170,648 @@ example :
       [.conn 0 0 0 5 4, .full 0 [⟨4, 10, false, false, exKey 4⟩], .full 0 [⟨4, 2000, false, false, exKey 4⟩]]
     st.conn 0 = true ∧ (⟨4, 2000, false, false, exKey 4⟩ : VInfo) ∈ volumesOf st 0 ∧ 4 ∈ st.wr (exKey 4) ∧
       4 ∉ (step st .refresh).wr (exKey 4) := by decide
+
+
+/-! ## the size-limit conjunct as an invariant, excluding the open finding -/
+
+/-- some connected server has the volume registered at or over the size limit -/
+def Full (st : St) (vid : Nat) : Prop :=
+  ∃ s v, s < maxSrv ∧ st.conn s = true ∧ v ∈ volumesOf st s ∧ v.id = vid ∧ v.size ≥ st.limit
+
+/-- the master state together with the set of volume ids the master "knows to be full": those the last
+    refresh round saw full and that have been full ever since -/
+def stepK (p : St × (Nat → Prop)) (op : Op) : St × (Nat → Prop) :=
+  (step p.1 op,
+   match op with
+   | .refresh => Full (step p.1 op)
+   | _ => fun vid => p.2 vid ∧ Full (step p.1 op) vid)
+
+def runK (p : St × (Nat → Prop)) (ops : List Op) : St × (Nat → Prop) := ops.foldl stepK p
+
+theorem runK_fst (p : St × (Nat → Prop)) (ops : List Op) : (runK p ops).1 = run p.1 ops := by
+  induction ops generalizing p with
+  | nil => rfl
+  | cons op ops ih => simp only [runK, run, List.foldl_cons]; exact ih (stepK p op)
+
+/-- the open finding ensureCorrectWritables/full-volume-offered-again, as a condition on one operation:
+    the operation ADDS to some writables slice a volume that is registered at or over the size limit -/
+def Reoffers (st : St) (op : Op) : Prop :=
+  ∃ k vid, vid ∈ (step st op).wr k ∧ vid ∉ st.wr k ∧ Full (step st op) vid
+
+/-- no volume known to be full is offered for writes -/
+def KnownFullOk (keyOf : Nat → Key) (p : St × (Nat → Prop)) : Prop := ∀ vid, p.2 vid → vid ∉ p.1.wr (keyOf vid)
+
+theorem refresh_frame (st : St) (n : Nat) : (refresh st n).toCore = st.toCore ∧ (refresh st n).limit = st.limit := by
+  unfold refresh
+  refine foldl_inv_st (fun x => x.toCore = st.toCore ∧ x.limit = st.limit) _ ?_ _ _ ⟨rfl, rfl⟩
+  intro x s hx
+  split
+  · refine foldl_inv_st (fun y => y.toCore = st.toCore ∧ y.limit = st.limit) _ ?_ _ _ hx
+    intro y v hy
+    split
+    · exact ⟨(touchKey_wr y v.key).2.2.1.trans hy.1, (touchKey_wr y v.key).2.2.2.2.2.trans hy.2⟩
+    · exact hy
+  · exact hx
+
+/-- one operation keeps `KnownFullOk`: the refresh round by `refresh_removes_full`, every other operation
+    unless it re-offers a full volume (the open finding) -/
+theorem knownFull_step {keyOf : Nat → Key} (hk : ∀ vid, (keyOf vid).disk < 2) (p : St × (Nat → Prop)) (op : Op)
+    (hi : Inv keyOf p.1) (h : KnownFullOk keyOf p) (hno : ¬ Reoffers p.1 op) : KnownFullOk keyOf (stepK p op) := by
+  have other : ∀ kn' : Nat → Prop, (∀ vid, kn' vid → p.2 vid ∧ Full (step p.1 op) vid) →
+      ∀ vid, kn' vid → vid ∉ (step p.1 op).wr (keyOf vid) := by
+    intro kn' hkn vid hv hm
+    obtain ⟨h1, h2⟩ := hkn vid hv
+    exact hno ⟨keyOf vid, vid, hm, h vid h1, h2⟩
+  cases op with
+  | refresh =>
+    intro vid hv
+    obtain ⟨s, v, hs, hc, hm, hid, hsz⟩ := (hv : Full (step p.1 .refresh) vid)
+    obtain ⟨f1, f2⟩ := refresh_frame p.1 maxSrv
+    have hc' : p.1.conn s = true := by
+      have : (refresh p.1 maxSrv).toCore.conn s = true := hc
+      rw [f1] at this; exact this
+    have hm' : v ∈ volumesOf p.1 s := by
+      have : v ∈ (refresh p.1 maxSrv).toCore.volumesOf s := hm
+      rw [f1] at this; exact this
+    have hsz' : v.size ≥ p.1.limit := by
+      have : v.size ≥ (refresh p.1 maxSrv).limit := hsz
+      rw [f2] at this; exact this
+    have hkey : v.key = keyOf v.id := (mem_volumesOf hk hi.regKey s).1 v hm'
+    have := refresh_removes_full p.1 (fun k => (hi.winv k).1) s hs hc' v hm' hsz'
+    rw [hkey, hid] at this
+    exact this
+  | conn s dc rack mh ms => exact other _ (fun _ hv => hv)
+  | max s mh ms => exact other _ (fun _ hv => hv)
+  | full s vs => exact other _ (fun _ hv => hv)
+  | inc s ns ds => exact other _ (fun _ hv => hv)
+  | ecfull s es => exact other _ (fun _ hv => hv)
+  | ecinc s ns ds => exact other _ (fun _ hv => hv)
+  | disc s => exact other _ (fun _ hv => hv)
+
+/-- no operation of the sequence re-offers a full volume -/
+def NoReoffer (st : St) : List Op → Prop
+  | [] => True
+  | op :: ops => ¬ Reoffers st op ∧ NoReoffer (step st op) ops
+
+/-- C11, the size-limit conjunct as an invariant (partial: excluding the open finding
+    ensureCorrectWritables/full-volume-offered-again = `Reoffers`): after every operation of a well-formed
+    history in which no operation adds a full volume to a writables slice, no volume that a refresh round
+    has seen full and that has been full ever since is offered for writes.  `full_volume_offered_again`
+    shows that the hypothesis cannot be dropped. -/
+theorem size_limit_run_partial (keyOf : Nat → Key) (hk : ∀ vid, (keyOf vid).disk < 2) (limit : Nat) (asMin : Bool) (nVid : Nat)
+    (ops : List Op) (hops : OpsWf keyOf (init limit asMin nVid) ops) (hno : NoReoffer (init limit asMin nVid) ops) :
+    KnownFullOk keyOf (runK (init limit asMin nVid, fun _ => False) ops) := by
+  have key : ∀ (ops : List Op) (p : St × (Nat → Prop)), Inv keyOf p.1 → KnownFullOk keyOf p → OpsWf keyOf p.1 ops →
+      NoReoffer p.1 ops → KnownFullOk keyOf (runK p ops) := by
+    intro ops
+    induction ops with
+    | nil => intro p _ h _ _; exact h
+    | cons op ops ih =>
+      intro p hi h hw hn
+      simp only [runK, List.foldl_cons]
+      exact ih (stepK p op) (inv_step hk hi op hw.1) (knownFull_step hk p op hi h hn.1) hw.2 hn.2
+  exact key ops _ (inv_init keyOf limit asMin nVid) (fun _ f => f.elim) hops hno
+
+/-- `¬ Reoffers` in a form `decide` can evaluate on a concrete state (all quantifiers bounded): no volume
+    registered at or over the limit on a connected server is in its layout's writables after the operation
+    without having been there before -/
+def notReoffersB (keyOf : Nat → Key) (st : St) (op : Op) : Bool :=
+  (List.range maxSrv).all fun s => !((step st op).conn s) || (volumesOf (step st op) s).all fun v =>
+    !(decide (v.size ≥ (step st op).limit)) || !((step st op).wr (keyOf v.id)).contains v.id || (st.wr (keyOf v.id)).contains v.id
+
+theorem not_reoffers_of_B {keyOf : Nat → Key} {st : St} {op : Op} (hi : Inv keyOf (step st op))
+    (hB : notReoffersB keyOf st op = true) : ¬ Reoffers st op := by
+  intro ⟨k, vid, h1, h2, s, v, hs, hc, hm, hid, hsz⟩
+  have hk := hi.wrKey k vid h1
+  subst hk; subst hid
+  unfold notReoffersB at hB
+  rw [List.all_eq_true] at hB
+  have h3 := hB s (List.mem_range.mpr hs)
+  rw [hc] at h3
+  simp only [Bool.not_true, Bool.false_or, List.all_eq_true] at h3
+  have h4 := h3 v hm
+  have e1 : decide (v.size ≥ (step st op).limit) = true := by simpa using hsz
+  have e2 : ((step st op).wr (keyOf v.id)).contains v.id = true := by simpa using h1
+  rw [e1, e2] at h4
+  simp only [Bool.not_true, Bool.false_or] at h4
+  exact h2 (by simpa using h4)
+
+def NoReofferB (keyOf : Nat → Key) (st : St) : List Op → Prop
+  | [] => True
+  | op :: ops => notReoffersB keyOf st op = true ∧ NoReofferB keyOf (step st op) ops
+
+theorem noReoffer_of_B {keyOf : Nat → Key} (hk : ∀ vid, (keyOf vid).disk < 2) (ops : List Op) : ∀ (st : St), Inv keyOf st →
+    OpsWf keyOf st ops → NoReofferB keyOf st ops → NoReoffer st ops := by
+  induction ops with
+  | nil => intro _ _ _ _; trivial
+  | cons op ops ih =>
+    intro st hi hw hb
+    have hi' := inv_step hk hi op hw.1
+    exact ⟨not_reoffers_of_B hi' hb.1, ih _ hi' hw.2 hb.2⟩
+
+/-- the hypotheses of `size_limit_run_partial` are satisfiable by a history in which a volume grows past the
+    limit, is seen by a refresh round and stays full while heartbeats, a second server and a disconnect follow -/
+def exOpsFull : List Op :=
+  [.conn 0 0 0 5 4, .conn 1 0 1 5 0,
+   .full 0 [⟨4, 10, false, false, exKey 4⟩, ⟨3, 10, false, false, exKey 3⟩],
+   .full 0 [⟨4, 2000, false, false, exKey 4⟩, ⟨3, 10, false, false, exKey 3⟩],
+   .refresh,
+   .full 0 [⟨4, 2000, false, false, exKey 4⟩, ⟨3, 20, true, false, exKey 3⟩],
+   .inc 1 [⟨5, 0, false, false, exKey 5⟩] [],
+   .full 0 [⟨4, 2000, false, false, exKey 4⟩, ⟨3, 20, false, false, exKey 3⟩],
+   .disc 1]
+
+example : OpsWf exKey (init 1000 false 12) exOpsFull ∧ NoReoffer (init 1000 false 12) exOpsFull := by
+  have hw : OpsWf exKey (init 1000 false 12) exOpsFull := by
+    simp only [exOpsFull, OpsWf, OpWf, VOk]
+    decide
+  refine ⟨hw, noReoffer_of_B exKey_disk _ _ (inv_init exKey 1000 false 12) hw ?_⟩
+  simp only [exOpsFull, NoReofferB]
+  decide
+
+/-- … and in that history volume 4 is known to be full at the end (the conclusion is about something) -/
+example : (runK (init 1000 false 12, fun _ => False) exOpsFull).2 4 := by
+  simp only [exOpsFull, runK, List.foldl_cons, List.foldl_nil, stepK]
+  refine ⟨⟨⟨⟨?_, ?_⟩, ?_⟩, ?_⟩, ?_⟩ <;>
+    exact ⟨0, ⟨4, 2000, false, false, exKey 4⟩, by decide, by decide, by decide, rfl, by decide⟩
+
+
+section EcShardMap
+open SwV.Lemmas.C11Ec
+
+/-! ## the EC shard map -/
+
+/-- EC side of the invariant (`D vid` = the disk type the shards of volume `vid` live on): the shard map
+    lists, for every shard, exactly the connected servers that have the shard registered -/
+structure EcInv (D : Nat → Nat) (st : St) : Prop where
+  disk : ∀ s t vid, st.ecs s t vid ≠ 0 → t = D vid ∧ vid < st.nVid + 1
+  iff : ∀ vid sh s, sh < 14 → (s ∈ st.ecLoc vid sh ↔ (st.conn s = true ∧ (st.ecs s (D vid) vid).testBit sh = true))
+  nodup : ∀ vid sh, (st.ecLoc vid sh).Nodup
+
+/-- conditions on the EC messages and on disconnects: the disk type of an EC volume is a function of its
+    id, ids are in the modelled range, a full EC heartbeat lists a volume once — and NO SERVER THAT STILL HAS
+    EC SHARDS REGISTERED DISCONNECTS (the open finding UnRegisterDataNode/ec-shards-of-disconnected-server-stay-in-lookup) -/
+def EcWf (D : Nat → Nat) (c : Core) : Op → Prop
+  | .ecfull _ es => (es.map (·.id)).Nodup ∧ ∀ e ∈ es, e.disk = D e.id ∧ e.id < c.nVid + 1
+  | .ecinc _ ns ds => ∀ e ∈ ns ++ ds, e.disk = D e.id ∧ e.id < c.nVid + 1
+  | .disc s => c.conn s = true → ∀ vid, vid < c.nVid + 1 → c.ecs s (D vid) vid = 0
+  | _ => True
+
+theorem ecinv_frame {D : Nat → Nat} {st st' : St} (h : EcInv D st) (h1 : st'.ecs = st.ecs) (h2 : st'.conn = st.conn)
+    (h3 : st'.nVid = st.nVid) (h4 : st'.ecLoc = st.ecLoc) : EcInv D st' :=
+  ⟨fun s t vid hz => by rw [h3]; exact h.disk s t vid (by rw [← h1]; exact hz),
+   fun vid sh s hsh => by rw [h4, h2, h1]; exact h.iff vid sh s hsh,
+   fun vid sh => by rw [h4]; exact h.nodup vid sh⟩
+
+/-! ### the volume side never touches shards or the shard map -/
+
+theorem addOrUpdate_ecs (c : Core) (s : Nat) (v : VInfo) : (c.addOrUpdate s v).1.ecs = c.ecs := by
+  cases h : c.vols s v.key.disk v.id with
+  | none => simp only [Core.addOrUpdate, h]; rfl
+  | some old => simp only [Core.addOrUpdate, h]; split <;> rfl
+
+theorem sweepGone_ecs (c : Core) (s : Nat) (actual : List VInfo) (t n : Nat) : (c.sweepGone s actual t n).1.ecs = c.ecs := by
+  induction n with
+  | zero => rfl
+  | succ n ih =>
+    simp only [Core.sweepGone]
+    split
+    · split
+      · exact ih
+      · exact ih
+    · exact ih
+
+theorem addAll_ecs (c : Core) (s : Nat) (vs : List VInfo) : (c.addAll s vs).1.ecs = c.ecs := by
+  induction vs generalizing c with
+  | nil => rfl
+  | cons v vs ih => simp only [Core.addAll]; rw [ih, addOrUpdate_ecs]
+
+theorem updateVolumes_ecs (c : Core) (s : Nat) (vs : List VInfo) : (c.updateVolumes s vs).1.ecs = c.ecs := by
+  unfold Core.updateVolumes
+  simp only []
+  rw [addAll_ecs, sweepGone_ecs, sweepGone_ecs]
+
+theorem deltaUpdateVolumes_ecs (c : Core) (s : Nat) (news dels : List VInfo) : (c.deltaUpdateVolumes s news dels).ecs = c.ecs := by
+  unfold Core.deltaUpdateVolumes
+  have h1 : ∀ (l : List VInfo) (c : Core), (l.foldl (fun c v => c.delVol s v.key.disk v.id v.remote) c).ecs = c.ecs := by
+    intro l; induction l with
+    | nil => intro c; rfl
+    | cons a l ih => intro c; simp only [List.foldl_cons]; rw [ih]; rfl
+  have h2 : ∀ (l : List VInfo) (c : Core), (l.foldl (fun c v => (c.addOrUpdate s v).1) c).ecs = c.ecs := by
+    intro l; induction l with
+    | nil => intro c; rfl
+    | cons a l ih => intro c; simp only [List.foldl_cons]; rw [ih, addOrUpdate_ecs]
+  rw [h2, h1]
+
+theorem adjustMax_ecs (c : Core) (s mh ms : Nat) : (c.adjustMax s mh ms).ecs = c.ecs := by
+  have h1 : ∀ (c : Core) t m, (c.adjustMax1 s t m).ecs = c.ecs := by
+    intro c t m; unfold Core.adjustMax1; split
+    · rfl
+    · split <;> rfl
+  unfold Core.adjustMax
+  split
+  · rw [h1, h1]
+  · rfl
+
+theorem touchKey_ecLoc (st : St) (k : Key) : (touchKey st k).ecLoc = st.ecLoc := by
+  unfold touchKey; split <;> rfl
+theorem ensureWritables_ecLoc (st : St) (k : Key) (v : Nat) : (ensureWritables st k v).ecLoc = st.ecLoc := by
+  unfold ensureWritables setWritable removeWritable; split
+  · split
+    · split <;> rfl
+    · rfl
+  · rfl
+theorem registerLayout_ecLoc (st : St) (v : VInfo) (s : Nat) : (registerLayout st v s).ecLoc = st.ecLoc := by
+  unfold registerLayout; rw [ensureWritables_ecLoc]; simp [registerVolume, touchKey_ecLoc]
+theorem unregisterLayout_ecLoc (st : St) (v : VInfo) (s : Nat) : (unregisterLayout st v s).ecLoc = st.ecLoc := by
+  simp only [unregisterLayout]
+  split
+  · exact touchKey_ecLoc _ _
+  · split
+    · split
+      · show (ensureWritables _ _ _).ecLoc = _; rw [ensureWritables_ecLoc]; exact touchKey_ecLoc _ _
+      · rw [ensureWritables_ecLoc]; exact touchKey_ecLoc _ _
+    · exact touchKey_ecLoc _ _
+theorem setUnavailable_ecLoc (st : St) (v : VInfo) (s : Nat) : (setUnavailable st v s).ecLoc = st.ecLoc := by
+  simp only [setUnavailable]
+  split
+  · exact touchKey_ecLoc _ _
+  · split
+    · split
+      · show (touchKey st v.key).ecLoc = _; exact touchKey_ecLoc _ _
+      · show (touchKey st v.key).ecLoc = _; exact touchKey_ecLoc _ _
+    · exact touchKey_ecLoc _ _
+theorem applyEv_ecLoc (st : St) (ev : Ev) : (applyEv st ev).ecLoc = st.ecLoc := by
+  cases ev with
+  | register v s => exact registerLayout_ecLoc st v s
+  | unregister v s => exact unregisterLayout_ecLoc st v s
+  | ensure k vid => show (ensureWritables _ _ _).ecLoc = _; rw [ensureWritables_ecLoc]; exact touchKey_ecLoc _ _
+  | capacityFull k vid => show (touchKey st k).ecLoc = _; exact touchKey_ecLoc _ _
+
+theorem foldl_ecLoc {α : Type} (f : St → α → St) (hf : ∀ st a, (f st a).ecLoc = st.ecLoc) (l : List α) (st : St) :
+    (l.foldl f st).ecLoc = st.ecLoc := by
+  induction l generalizing st with
+  | nil => rfl
+  | cons a l ih => simp only [List.foldl_cons]; rw [ih, hf]
+
+theorem refresh_ecLoc (st : St) (n : Nat) : (refresh st n).ecLoc = st.ecLoc := by
+  unfold refresh
+  apply foldl_ecLoc
+  intro st' s
+  split
+  · apply foldl_ecLoc
+    intro st'' v
+    split
+    · show (touchKey st'' v.key).ecLoc = _; exact touchKey_ecLoc _ _
+    · rfl
+  · rfl
+
+/-! ### every operation keeps the EC invariant -/
+
+theorem evs_core_ecLoc (evs : List Ev) (st : St) :
+    (evs.foldl applyEv st).toCore = st.toCore ∧ (evs.foldl applyEv st).ecLoc = st.ecLoc := by
+  induction evs generalizing st with
+  | nil => exact ⟨rfl, rfl⟩
+  | cons ev evs ih =>
+    simp only [List.foldl_cons]
+    obtain ⟨i1, i2⟩ := ih (applyEv st ev)
+    exact ⟨i1.trans (applyEv_core st ev), i2.trans (applyEv_ecLoc st ev)⟩
+
+theorem updateVolumes_conn_nVid (c : Core) (s : Nat) (vs : List VInfo) :
+    (c.updateVolumes s vs).1.conn = c.conn ∧ (c.updateVolumes s vs).1.nVid = c.nVid := by
+  obtain ⟨⟨s01, s02⟩, _⟩ := sweepGone_facts s vs 0 (c.nVid + 1) c
+  obtain ⟨⟨s11, s12⟩, _⟩ := sweepGone_facts s vs 1 (c.nVid + 1) (c.sweepGone s vs 0 (c.nVid + 1)).1
+  obtain ⟨⟨a1, a1'⟩, _⟩ := addAll_facts s vs (Core.sweepGone (c.sweepGone s vs 0 (c.nVid + 1)).1 s vs 1 (c.nVid + 1)).1
+  unfold Core.updateVolumes
+  simp only []
+  exact ⟨a1.trans (s11.trans s01), a1'.trans (s12.trans s02)⟩
+
+theorem deltaUpdateVolumes_conn_nVid (c : Core) (s : Nat) (ns ds : List VInfo) :
+    (c.deltaUpdateVolumes s ns ds).conn = c.conn ∧ (c.deltaUpdateVolumes s ns ds).nVid = c.nVid := by
+  obtain ⟨⟨d1, d2⟩, _⟩ := dels_facts s ds c
+  unfold Core.deltaUpdateVolumes
+  rw [← addAll_fst]
+  obtain ⟨⟨a1, a1'⟩, _⟩ := addAll_facts s ns (ds.foldl (fun c v => c.delVol s v.key.disk v.id v.remote) c)
+  exact ⟨a1.trans d1, a1'.trans d2⟩
+
+theorem ecinv_conn {D : Nat → Nat} {st : St} (h : EcInv D st) (s dc rack mh ms : Nat) : EcInv D (conn st s dc rack mh ms) := by
+  by_cases hc : st.conn s = true
+  · have : conn st s dc rack mh ms = st := by
+      unfold SwV.Model.C11.conn Core.connect
+      have hc' : st.toCore.conn s = true := hc
+      simp [hc']
+    rw [this]; exact h
+  · have hc : st.conn s = false := by simpa using hc
+    obtain ⟨f1, _, f3⟩ := connect_fields st.toCore s dc rack mh ms hc
+    have f4 : (st.toCore.connect s dc rack mh ms).ecs = (fun x => if x = s then fun _ _ => 0 else st.ecs x) := by
+      unfold Core.connect
+      have hc' : st.toCore.conn s = false := hc
+      simp only [hc', Bool.false_eq_true, if_false]
+      split <;> rfl
+    refine ⟨?_, ?_, h.nodup⟩
+    · intro s' t vid hz
+      have hz' : (st.toCore.connect s dc rack mh ms).ecs s' t vid ≠ 0 := hz
+      rw [f4] at hz'
+      by_cases e : s' = s
+      · simp [e] at hz'
+      · simp only [e, if_false] at hz'
+        have := h.disk s' t vid hz'
+        exact ⟨this.1, by show vid < (st.toCore.connect s dc rack mh ms).nVid + 1; rw [f3]; exact this.2⟩
+    · intro vid sh s' hsh
+      show s' ∈ st.ecLoc vid sh ↔ ((st.toCore.connect s dc rack mh ms).conn s' = true ∧
+        ((st.toCore.connect s dc rack mh ms).ecs s' (D vid) vid).testBit sh = true)
+      rw [f1, f4, h.iff vid sh s' hsh]
+      by_cases e : s' = s
+      · subst e; simp [hc]
+      · simp [upd1, e]
+
+theorem ecinv_disc {D : Nat → Nat} {st : St} (h : EcInv D st) (s : Nat)
+    (hno : st.conn s = true → ∀ vid, vid < st.nVid + 1 → st.ecs s (D vid) vid = 0) : EcInv D (disc st s) := by
+  by_cases hc : st.conn s = true
+  · have hcore : (disc st s).toCore = st.toCore.disconnect s := by
+      simp only [disc, hc, Bool.not_true, Bool.false_eq_true, if_false]
+      rw [foldl_unavail_core]
+    have hecl : (disc st s).ecLoc = st.ecLoc := by
+      simp only [disc, hc, Bool.not_true, Bool.false_eq_true, if_false]
+      exact foldl_ecLoc _ (fun st v => setUnavailable_ecLoc st v s) _ _
+    have hecs : (disc st s).ecs = st.ecs := by show (disc st s).toCore.ecs = _; rw [hcore]; rfl
+    have hconn : (disc st s).conn = upd1 st.conn s false := by show (disc st s).toCore.conn = _; rw [hcore]; rfl
+    have hn : (disc st s).nVid = st.nVid := by show (disc st s).toCore.nVid = _; rw [hcore]; rfl
+    refine ⟨fun s' t vid hz => by rw [hn]; exact h.disk s' t vid (by rw [← hecs]; exact hz), ?_,
+      fun vid sh => by rw [hecl]; exact h.nodup vid sh⟩
+    intro vid sh s' hsh
+    rw [hecl, hconn, hecs, h.iff vid sh s' hsh]
+    by_cases e : s' = s
+    · subst e
+      simp only [upd1, if_true, Bool.false_eq_true, false_and, iff_false, not_and]
+      intro _ hb
+      by_cases z : st.ecs s' (D vid) vid = 0
+      · rw [z] at hb; simp at hb
+      · have := hno hc vid (h.disk s' _ vid z).2
+        exact z this
+    · simp [upd1, e]
+  · have : st.conn s = false := by simpa using hc
+    simp [disc, this]; exact h
+
+theorem hasBit_map (l : List EcInfo) (vid sh : Nat) :
+    HasBit (l.map fun e => (e.id, e.bits)) vid sh ↔ ∃ e ∈ l, e.id = vid ∧ e.bits.testBit sh = true := by
+  unfold HasBit
+  constructor
+  · rintro ⟨p, hp, h1, h2⟩
+    obtain ⟨e, he, rfl⟩ := List.mem_map.mp hp
+    exact ⟨e, he, h1, h2⟩
+  · rintro ⟨e, he, h1, h2⟩
+    exact ⟨(e.id, e.bits), List.mem_map.mpr ⟨e, he, rfl⟩, h1, h2⟩
+
+theorem syncEcInc_eq (st : St) (s : Nat) (ns ds : List EcInfo) (hc : st.conn s = true) :
+    syncEcInc st s ns ds =
+      (ds.map fun e => (e.id, e.bits)).foldl (fun st p => unregisterEc st p.1 p.2 s)
+        ((ns.map fun e => (e.id, e.bits)).foldl (fun st p => registerEc st p.1 p.2 s)
+          ({ st with toCore := st.toCore.deltaUpdateEcShards s ns ds } : St)) := by
+  simp only [syncEcInc, hc, Bool.not_true, Bool.false_eq_true, if_false, List.foldl_map]
+
+theorem ecinv_ecinc {D : Nat → Nat} {st : St} (h : EcInv D st) (s : Nat) (ns ds : List EcInfo)
+    (hw : ∀ e ∈ ns ++ ds, e.disk = D e.id ∧ e.id < st.nVid + 1) : EcInv D (syncEcInc st s ns ds) := by
+  cases hc : st.conn s with
+  | false => simp [syncEcInc, hc]; exact h
+  | true =>
+    rw [syncEcInc_eq st s ns ds hc]
+    obtain ⟨⟨a1, a2, _⟩, a4⟩ := addEc_fold_spec s ns st.toCore
+    obtain ⟨⟨d1, d2, _⟩, d4⟩ := delEc_fold_spec s ds (ns.foldl (fun c e => c.addEc s e) st.toCore)
+    obtain ⟨r1, r2⟩ := registerAll_spec s (ns.map fun e => (e.id, e.bits)) ({ st with toCore := st.toCore.deltaUpdateEcShards s ns ds } : St) h.nodup
+    obtain ⟨u1, u2⟩ := unregisterAll_spec s (ds.map fun e => (e.id, e.bits)) _ r2
+    have kr := ekeep_foldl (fun st p => registerEc st p.1 p.2 s) (fun st p => ekeep_registerEc st p.1 p.2 s)
+      (ns.map fun e => (e.id, e.bits)) ({ st with toCore := st.toCore.deltaUpdateEcShards s ns ds } : St)
+    have ku := ekeep_foldl (fun st p => unregisterEc st p.1 p.2 s) (fun st p => ekeep_unregisterEc st p.1 p.2 s)
+      (ds.map fun e => (e.id, e.bits))
+      ((ns.map fun e => (e.id, e.bits)).foldl (fun st p => registerEc st p.1 p.2 s) ({ st with toCore := st.toCore.deltaUpdateEcShards s ns ds } : St))
+    have hcoreF := ku.1.trans kr.1
+    generalize (ds.map fun e => (e.id, e.bits)).foldl (fun st p => unregisterEc st p.1 p.2 s)
+      ((ns.map fun e => (e.id, e.bits)).foldl (fun st p => registerEc st p.1 p.2 s) ({ st with toCore := st.toCore.deltaUpdateEcShards s ns ds } : St)) = stF
+      at u1 u2 hcoreF
+    have hcF : stF.toCore = ds.foldl (fun c e => c.delEc s e) (ns.foldl (fun c e => c.addEc s e) st.toCore) := hcoreF
+    have bit : ∀ s' t vid sh, (stF.ecs s' t vid).testBit sh = true ↔
+        (((st.ecs s' t vid).testBit sh = true ∨ (s' = s ∧ ∃ e ∈ ns, e.disk = t ∧ e.id = vid ∧ e.bits.testBit sh = true)) ∧
+          ¬ (s' = s ∧ ∃ e ∈ ds, e.disk = t ∧ e.id = vid ∧ e.bits.testBit sh = true)) := by
+      intro s' t vid sh
+      show (stF.toCore.ecs s' t vid).testBit sh = true ↔ _
+      rw [hcF, d4, a4]
+    refine ⟨?_, ?_, u2⟩
+    · intro s' t vid hz
+      have hn : stF.nVid = st.nVid := by show stF.toCore.nVid = _; rw [hcF, d2, a2]
+      rw [hn]
+      obtain ⟨sh, hsh⟩ := Nat.exists_testBit_of_ne_zero hz
+      rcases ((bit s' t vid sh).mp hsh).1 with g | ⟨_, e, he, g1, g2, _⟩
+      · apply h.disk s' t vid
+        intro z; rw [z] at g; simp at g
+      · have := hw e (by simp [he])
+        rw [← g1, ← g2]; exact this
+    · intro vid sh x hsh
+      have hconn : stF.conn = st.conn := by show stF.toCore.conn = _; rw [hcF, d1, a1]
+      rw [u1 vid sh x hsh, r1 vid sh x hsh, hasBit_map, hasBit_map, hconn, bit]
+      show ((x ∈ st.ecLoc vid sh ∨ _) ∧ _) ↔ _
+      rw [h.iff vid sh x hsh]
+      by_cases e : x = s
+      · subst e
+        simp only [true_and, hc]
+        constructor
+        · rintro ⟨g1 | ⟨e, he, g1, g2⟩, g3⟩
+          · exact ⟨Or.inl g1, fun ⟨e', he', _, k2, k3⟩ => g3 ⟨e', he', k2, k3⟩⟩
+          · exact ⟨Or.inr ⟨e, he, by rw [(hw e (by simp [he])).1, g1], g1, g2⟩, fun ⟨e', he', _, k2, k3⟩ => g3 ⟨e', he', k2, k3⟩⟩
+        · rintro ⟨g1 | ⟨e, he, _, g1, g2⟩, g3⟩
+          · exact ⟨Or.inl g1, fun ⟨e', he', k2, k3⟩ => g3 ⟨e', he', by rw [(hw e' (by simp [he'])).1, k2], k2, k3⟩⟩
+          · exact ⟨Or.inr ⟨e, he, g1, g2⟩, fun ⟨e', he', k2, k3⟩ => g3 ⟨e', he', by rw [(hw e' (by simp [he'])).1, k2], k2, k3⟩⟩
+      · simp [e]
+
+theorem ecinv_ecfull {D : Nat → Nat} (hD : ∀ vid, D vid < 2) {st : St} (h : EcInv D st) (s : Nat) (es : List EcInfo)
+    (hn : (es.map (·.id)).Nodup) (hw : ∀ e ∈ es, e.disk = D e.id ∧ e.id < st.nVid + 1) : EcInv D (syncEcFull st s es) := by
+  unfold syncEcFull
+  split
+  · exact h
+  · next hc =>
+    have hc : st.conn s = true := by simpa using hc
+    obtain ⟨cs1, cs2, cs3⟩ := csame_updateEcShards st.toCore s es
+    obtain ⟨u1, u2⟩ := updateEcShards_ecs st.toCore s es
+    have shard := updateEcShards_shard st.toCore s es D hD (fun t vid hz => h.disk s t vid hz) hn (fun e he => (hw e he).1)
+    obtain ⟨r1, r2⟩ := registerAll_spec s (st.toCore.updateEcShards s es).2.1 ({ st with toCore := (st.toCore.updateEcShards s es).1 } : St) h.nodup
+    obtain ⟨q1, q2⟩ := unregisterAll_spec s (st.toCore.updateEcShards s es).2.2 _ r2
+    have kr := ekeep_foldl (fun st p => registerEc st p.1 p.2 s) (fun st p => ekeep_registerEc st p.1 p.2 s)
+      (st.toCore.updateEcShards s es).2.1 ({ st with toCore := (st.toCore.updateEcShards s es).1 } : St)
+    have ku := ekeep_foldl (fun st p => unregisterEc st p.1 p.2 s) (fun st p => ekeep_unregisterEc st p.1 p.2 s)
+      (st.toCore.updateEcShards s es).2.2
+      ((st.toCore.updateEcShards s es).2.1.foldl (fun st p => registerEc st p.1 p.2 s) ({ st with toCore := (st.toCore.updateEcShards s es).1 } : St))
+    have hcoreF := ku.1.trans kr.1
+    generalize (st.toCore.updateEcShards s es).2.2.foldl (fun st p => unregisterEc st p.1 p.2 s)
+      ((st.toCore.updateEcShards s es).2.1.foldl (fun st p => registerEc st p.1 p.2 s) ({ st with toCore := (st.toCore.updateEcShards s es).1 } : St)) = stF
+      at q1 q2 hcoreF
+    have hcF : stF.toCore = (st.toCore.updateEcShards s es).1 := hcoreF
+    have hconn : stF.conn = st.conn := by show stF.toCore.conn = _; rw [hcF]; exact cs2
+    have hnv : stF.nVid = st.nVid := by show stF.toCore.nVid = _; rw [hcF]; exact cs3
+    -- the server's shards come from the old registration or from the message
+    have src : ∀ s' t vid, stF.ecs s' t vid ≠ 0 → st.ecs s' t vid ≠ 0 ∨ (s' = s ∧ ∃ e ∈ es, e.disk = t ∧ e.id = vid) := by
+      intro s' t vid hz
+      have hz' : (st.toCore.updateEcShards s es).1.ecs s' t vid ≠ 0 := by rw [← hcF]; exact hz
+      by_cases hb : (((st.toCore.updateEcShards s es).2.1.isEmpty && (st.toCore.updateEcShards s es).2.2.isEmpty) = true)
+      · rw [u1 hb] at hz'; exact Or.inl hz'
+      · rw [u2 hb] at hz'
+        by_cases e : s' = s
+        · subst e
+          simp only [if_true] at hz'
+          by_cases hex : ∃ e ∈ es, e.disk = t ∧ e.id = vid
+          · exact Or.inr ⟨rfl, hex⟩
+          · exfalso
+            apply hz'
+            rw [SwV.Lemmas.C12Ec.store_ecs_other s' es _ s' t vid (Or.inr (fun e he hh => hex ⟨e, he, hh⟩))]
+        · simp only [e, if_false] at hz'; exact Or.inl hz'
+    have other : ∀ s' t vid, s' ≠ s → stF.ecs s' t vid = st.ecs s' t vid := by
+      intro s' t vid hne
+      show stF.toCore.ecs s' t vid = _
+      rw [hcF]
+      by_cases hb : (((st.toCore.updateEcShards s es).2.1.isEmpty && (st.toCore.updateEcShards s es).2.2.isEmpty) = true)
+      · rw [u1 hb]
+      · rw [u2 hb]; simp [hne]
+    refine ⟨?_, ?_, q2⟩
+    · intro s' t vid hz
+      rw [hnv]
+      rcases src s' t vid hz with g | ⟨_, e, he, g1, g2⟩
+      · exact h.disk s' t vid g
+      · have := hw e he
+        rw [← g1, ← g2]; exact this
+    · intro vid sh x hsh
+      rw [q1 vid sh x hsh, r1 vid sh x hsh, hconn]
+      show ((x ∈ st.ecLoc vid sh ∨ _) ∧ _) ↔ _
+      rw [h.iff vid sh x hsh]
+      by_cases e : x = s
+      · subst e
+        have := shard vid sh hsh
+        have hF : (stF.ecs x (D vid) vid).testBit sh = ((st.toCore.updateEcShards x es).1.ecs x (D vid) vid).testBit sh := by
+          show (stF.toCore.ecs x (D vid) vid).testBit sh = _; rw [hcF]
+        rw [hF, this]
+        simp only [true_and, hc]
+      · rw [other x _ _ e]; simp [e]
+
+/-- well-formed EC side of a history -/
+def EcOpsWf (D : Nat → Nat) (st : St) : List Op → Prop
+  | [] => True
+  | op :: ops => EcWf D st.toCore op ∧ EcOpsWf D (step st op) ops
+
+theorem ecinv_step {D : Nat → Nat} (hD : ∀ vid, D vid < 2) {st : St} (h : EcInv D st) (op : Op)
+    (hop : EcWf D st.toCore op) : EcInv D (step st op) := by
+  cases op with
+  | conn s dc rack mh ms => exact ecinv_conn h s dc rack mh ms
+  | max s mh ms => exact ecinv_frame h (adjustMax_ecs st.toCore s mh ms) (csame_adjustMax st.toCore s mh ms).2.1 (csame_adjustMax st.toCore s mh ms).2.2 rfl
+  | full s vs =>
+    by_cases hc : st.conn s = true
+    · simp only [step]
+      rw [syncFull_eq st s vs hc]
+      have F := evs_core_ecLoc (hbEvs s (st.toCore.updateVolumes s vs).2.1 (st.toCore.updateVolumes s vs).2.2.1 (st.toCore.updateVolumes s vs).2.2.2)
+        ({ st with toCore := (st.toCore.updateVolumes s vs).1 } : St)
+      refine ecinv_frame h ?_ ?_ ?_ F.2
+      · show (List.foldl applyEv _ _).toCore.ecs = _; rw [F.1]; exact updateVolumes_ecs st.toCore s vs
+      · show (List.foldl applyEv _ _).toCore.conn = _; rw [F.1]
+        exact (updateVolumes_conn_nVid st.toCore s vs).1
+      · show (List.foldl applyEv _ _).toCore.nVid = _; rw [F.1]
+        exact (updateVolumes_conn_nVid st.toCore s vs).2
+    · have : st.conn s = false := by simpa using hc
+      simp [step, syncFull, this]; exact h
+  | inc s ns ds =>
+    by_cases hc : st.conn s = true
+    · simp only [step]
+      rw [syncInc_eq st s ns ds hc]
+      have F := evs_core_ecLoc (hbEvs s ns ds []) ({ st with toCore := st.toCore.deltaUpdateVolumes s ns ds } : St)
+      refine ecinv_frame h ?_ ?_ ?_ F.2
+      · show (List.foldl applyEv _ _).toCore.ecs = _; rw [F.1]; exact deltaUpdateVolumes_ecs st.toCore s ns ds
+      · show (List.foldl applyEv _ _).toCore.conn = _; rw [F.1]
+        exact (deltaUpdateVolumes_conn_nVid st.toCore s ns ds).1
+      · show (List.foldl applyEv _ _).toCore.nVid = _; rw [F.1]
+        exact (deltaUpdateVolumes_conn_nVid st.toCore s ns ds).2
+    · have : st.conn s = false := by simpa using hc
+      simp [step, syncInc, this]; exact h
+  | ecfull s es => exact ecinv_ecfull hD h s es hop.1 hop.2
+  | ecinc s ns ds => exact ecinv_ecinc h s ns ds hop
+  | disc s => exact ecinv_disc h s hop
+  | refresh =>
+    have f := refresh_frame st maxSrv
+    refine ecinv_frame h ?_ ?_ ?_ (refresh_ecLoc st maxSrv)
+    · show (refresh st maxSrv).toCore.ecs = _; rw [f.1]
+    · show (refresh st maxSrv).toCore.conn = _; rw [f.1]
+    · show (refresh st maxSrv).toCore.nVid = _; rw [f.1]
+
+theorem ecinv_init (D : Nat → Nat) (limit : Nat) (asMin : Bool) (nVid : Nat) : EcInv D (init limit asMin nVid) := by
+  refine ⟨?_, ?_, ?_⟩
+  · intro s t vid hz; exact absurd rfl hz
+  · intro vid sh s _; simp [init]
+  · intro vid sh; simp [init]
+
+theorem ecinv_run {D : Nat → Nat} (hD : ∀ vid, D vid < 2) {st : St} (h : EcInv D st) (ops : List Op)
+    (hops : EcOpsWf D st ops) : EcInv D (run st ops) := by
+  induction ops generalizing st with
+  | nil => exact h
+  | cons op ops ih =>
+    simp only [run, List.foldl_cons]
+    exact ih (ecinv_step hD h op hops.1) hops.2
+
+theorem ecOpsWf_take {D : Nat → Nat} {st : St} (ops : List Op) (n : Nat) (h : EcOpsWf D st ops) :
+    EcOpsWf D st (ops.take n) := by
+  induction ops generalizing st n with
+  | nil => simp [EcOpsWf]
+  | cons op ops ih =>
+    cases n with
+    | zero => simp [EcOpsWf]
+    | succ n => exact ⟨h.1, ih n h.2⟩
+
+/-- `Topology.Lookup` of a volume id that no layout has an entry for: exactly the connected servers that
+    have at least one of its 14 shards registered -/
+theorem ec_lookup_exact_of_inv {keyOf : Nat → Key} {D : Nat → Nat} {st : St} (hi : Inv keyOf st) (he : EcInv D st) (vid : Nat)
+    (hnone : st.locs (keyOf vid) vid = none) :
+    ∀ s, s ∈ lookup st vid ↔ (st.conn s = true ∧ ∃ sh, sh < 14 ∧ (st.ecs s (D vid) vid).testBit sh = true) := by
+  intro s
+  have : lookup st vid = (List.range 14).flatMap (fun sh => st.ecLoc vid sh) := by
+    unfold lookup
+    rw [findSome_none (fun k => st.locs k vid) st.keys]
+    intro k _
+    by_cases e : k = keyOf vid
+    · subst e; exact hnone
+    · exact hi.other k vid e
+  rw [this]
+  simp only [List.mem_flatMap, List.mem_range]
+  constructor
+  · rintro ⟨sh, hsh, hm⟩
+    have := (he.iff vid sh s hsh).mp hm
+    exact ⟨this.1, sh, hsh, this.2⟩
+  · rintro ⟨hc, sh, hsh, hb⟩
+    exact ⟨sh, hsh, (he.iff vid sh s hsh).mpr ⟨hc, hb⟩⟩
+
+/-- C11, `lookup_exact` in full (partial: excluding exactly the two open EC-lookup findings).  After every
+    operation of a well-formed history in which no server disconnects while it still has EC shards
+    registered (`EcWf … (.disc s)`, the finding UnRegisterDataNode/ec-shards-of-disconnected-server-stay-in-lookup):
+    * a volume id with an entry in its layout is answered with exactly the connected servers that have the
+      volume registered — when that entry is empty the answer is "nowhere" although EC shards of the same id
+      may be registered (the finding SetVolumeUnavailable/empty-location-list-hides-ec-shards lives in this case);
+    * a volume id without an entry is answered with exactly the connected servers that have one of its
+      EC shards registered. -/
+theorem lookup_exact_all_partial (keyOf : Nat → Key) (D : Nat → Nat) (hk : ∀ vid, (keyOf vid).disk < 2) (hD : ∀ vid, D vid < 2)
+    (limit : Nat) (asMin : Bool) (nVid : Nat) (ops : List Op) (hops : OpsWf keyOf (init limit asMin nVid) ops)
+    (hec : EcOpsWf D (init limit asMin nVid) ops) (n : Nat) (vid : Nat) :
+    let st := run (init limit asMin nVid) (ops.take n)
+    (st.locs (keyOf vid) vid ≠ none →
+      ∀ s, s ∈ lookup st vid ↔ (st.conn s = true ∧ ∃ v, volOf st s vid = some v)) ∧
+    (st.locs (keyOf vid) vid = none →
+      ∀ s, s ∈ lookup st vid ↔ (st.conn s = true ∧ ∃ sh, sh < 14 ∧ (st.ecs s (D vid) vid).testBit sh = true)) := by
+  have hi := inv_run hk (inv_init keyOf limit asMin nVid) _ (opsWf_take ops n hops)
+  have he := ecinv_run hD (ecinv_init D limit asMin nVid) _ (ecOpsWf_take ops n hec)
+  exact ⟨(lookup_exact_of_inv hk hi vid).1, ec_lookup_exact_of_inv hi he vid⟩
+
+/-- the EC hypotheses are satisfiable by the history `exOps` (EC shards on server 1, server 0 disconnects) … -/
+example : EcOpsWf (fun _ => 0) (init 1000 false 12) exOps := by
+  simp only [exOps, EcOpsWf, EcWf]
+  decide
+
+/-- … and they exclude the finding's witness: a server that disconnects with EC shards stays in the lookup -/
+theorem ec_stays_after_disconnect :
+    let st := run (init 1000 false 12) [.conn 1 0 0 5 0, .ecinc 1 [⟨6, 0, 0, 5⟩] [], .disc 1]
+    lookup st 6 = [1, 1] ∧ st.conn 1 = false := by decide
+
+end EcShardMap
 
 end SwV.Props.C11
